@@ -17,6 +17,8 @@ class C04Spec(explore.Spec):
         for v in ("1.4", "1.5", "2.0", "2.1", "2.2"):
             for cb in ("record", "raise"):
                 out.append({"version": v, "cb": cb})
+        if tier == "thorough":
+            out += [{"version": "2.2", "cb": "record", "flavour": "async"}, {"version": "1.4", "cb": "raise", "flavour": "async"}]
         return out
 
     def alphabet(self, cfg):
